@@ -174,6 +174,16 @@ Definition py_getitem_x (a i : val) : res val :=
   | _ => py_getitem a i
   end.
 
+(* isinstance with numpy.ndarray among the classes (PyVal.TNdarray is jax.numpy.ndarray) *)
+Inductive pytype_x := TB (t : pytype) | TNumpyNdarray.
+Definition py_isinstance1_x (v : val) (t : pytype_x) : bool :=
+  match t with
+  | TB t => py_isinstance1 v t
+  | TNumpyNdarray => match v with VNpArr _ _ _ => true | _ => false end
+  end.
+Definition py_isinstance_x (v : val) (ts : list pytype_x) : res val :=
+  Ok (VBool (existsb (py_isinstance1_x v) ts)).
+
 (* ------------------------------------------------------------------ *)
 (* comparison with a relative tolerance on floats (everything else exact): used by the
    correspondence run for values that went through float rounding in the implementation.
